@@ -99,6 +99,7 @@ def make_cases(tbl, seed, k_random):
             ('short-payload', b58ref.b58check(bp, p[:-1])),
             ('long-payload', b58ref.b58check(bp, p + b'\x00')),
             ('unknown-binary-prefix', b58ref.b58check(unknown, p)),
+            ('neighbour-binary-prefix', b58ref.b58check(bp[:-1] + bytes([(bp[-1] + (1 if i % 2 else 255)) % 256]), p)),
         ]
         for name, txt in corr:
             cases.append((('dec', tuple(txt.encode())), {'kind': 'dec', 'row': i, 'cls': name, 'text': txt}))
@@ -218,7 +219,7 @@ def run(ctx):
     classes = ['zero', 'ones'] if ctx.quick else ['zero', 'ones', 'zero-ff', 'ones-00', 'low', 'high', 'mid']
     ctx.rule = ('kind table read from the running code (%d rows); Leg A: TLC encodes, per row, the payload/checksum classes %s and every concrete case digit by digit and '
                 'checks the end points, the shape of every encoding, invertibility and that the (length, human prefix) decoder accepts exactly the encodings; '
-                'Leg B: per row payloads {zeros, ones, %d seeded random} are encoded and 11 corruption classes of a valid text are decoded by the model, the checksum '
+                'Leg B: per row payloads {zeros, ones, %d seeded random} are encoded and 12 corruption classes of a valid text are decoded by the model, the checksum '
                 'is interpreted with hashlib, and base58_encode / base58_decode / is_* are compared with the model; non-trivial = every case (distinct row x payload / text)'
                 % (len(tbl), classes, k_random))
     ctx.assumptions = ['Cksum is uninterpreted in the spec and interpreted by hashlib sha256(sha256(.))[:4] in the harness',
@@ -326,6 +327,6 @@ META = {
              'verdicts (checksum interpreted by hashlib) are compared with base58_encode, base58_decode and the is_* validators.'),
     'design_ref': 'DESIGN.md section 5 C09',
     'note': ('Trusted: table extraction, hashlib interpretation of the checksum, corruption generator. Per row: payloads zeros / ones / seeded random (1 quick, 4 thorough), '
-             '11 corruption classes. Binary prefixes are taken from the code and only checked against the documented human prefix.'),
+             '12 corruption classes. Binary prefixes are taken from the code and only checked against the documented human prefix.'),
     'technique': 'TLA+ spec + TLC exhaustive model checking over the table; model-evaluated cases replayed into base58_encode / base58_decode / is_*',
 }
